@@ -40,22 +40,22 @@ type rawRec struct {
 }
 
 type simSub struct {
-	n       *simNode
-	id      int
-	topic   string
-	sub     *Subscription
-	ctx     context.Context
-	cancel  context.CancelFunc
-	mu      sync.Mutex
-	got     []*Message
-	gotAt   []time.Duration
-	endErr  error
-	ended   bool
-	created time.Duration
-	cancAt  time.Duration
-	canc    bool
-	lazy    bool // the consumer task starts only after the subscription was cancelled
-	bufCap  int
+	n              *simNode
+	id             int
+	topic          string
+	sub            *Subscription
+	ctx            context.Context
+	cancel         context.CancelFunc
+	mu             sync.Mutex
+	got            []*Message
+	gotAt          []time.Duration
+	endErr         error
+	ended          bool
+	created        time.Duration
+	cancAt         time.Duration
+	canc           bool
+	lazy           bool // the consumer task starts only after the subscription was cancelled
+	bufCap         int
 	rawFrom, rawTo int // raw-trace marks of the subscription's lifetime
 	checkedCancel  bool
 }
@@ -77,12 +77,12 @@ type simNode struct {
 	relays map[string][]RelayCancelFunc
 
 	topicOpts func(name string) []TopicOpt
-	canonRPC bool
-	onWire  func(fp *fakePeer, o *wireObs)
-	onRaw   func(r *rawRec)
-	created time.Duration
-	hbFirst time.Duration // virtual instant of the first heartbeat (gossipsub)
-	hbEvery time.Duration
+	canonRPC  bool
+	onWire    func(fp *fakePeer, o *wireObs)
+	onRaw     func(r *rawRec)
+	created   time.Duration
+	hbFirst   time.Duration // virtual instant of the first heartbeat (gossipsub)
+	hbEvery   time.Duration
 }
 
 func genKey(r *prng, typ int) crypto.PrivKey {
@@ -152,8 +152,8 @@ func (r rawTap) RejectMessage(msg *Message, reason string) {
 func (r rawTap) DuplicateMessage(msg *Message) {
 	r.add(rawRec{kind: "duplicate", mid: r.mid(msg), from: msg.ReceivedFrom, topic: msg.GetTopic()})
 }
-func (r rawTap) ThrottlePeer(p peer.ID)       { r.add(rawRec{kind: "throttle", p: p}) }
-func (r rawTap) RecvRPC(rpc *RPC)             { r.add(rawRec{kind: "recv", p: rpc.from, rpc: rpc}) }
+func (r rawTap) ThrottlePeer(p peer.ID) { r.add(rawRec{kind: "throttle", p: p}) }
+func (r rawTap) RecvRPC(rpc *RPC)       { r.add(rawRec{kind: "recv", p: rpc.from, rpc: rpc}) }
 func (r rawTap) SendRPC(rpc *RPC, p peer.ID) {
 	rec := rawRec{kind: "send", p: p, rpc: rpc}
 	if r.n.canonRPC {
@@ -180,13 +180,13 @@ func (r rawTap) UndeliverableMessage(msg *Message) {
 }
 
 type nodeCfg struct {
-	router   string // gossipsub floodsub randomsub
-	opts     []Option
-	rsize    int // randomsub size
-	ip       string
-	keyType  int
-	noTracer bool
-	tee      func(mem EventTracer) EventTracer
+	router         string // gossipsub floodsub randomsub
+	opts           []Option
+	rsize          int // randomsub size
+	ip             string
+	keyType        int
+	noTracer       bool
+	tee            func(mem EventTracer) EventTracer
 	afterHostStart func(h *simHost) // e.g. extra identities for the peerstore
 }
 
@@ -414,7 +414,6 @@ func (s *sim) teardown() {
 	}
 	synctestWait()
 }
-
 
 // stateSummary (debugging aid, read at quiescence): peers, topic knowledge, mesh, back-off.
 func (n *simNode) stateSummary() string {
